@@ -1195,6 +1195,13 @@ struct ssl
 
     unsigned char sessionIdLen;
     unsigned char sessionId[SSL_MAX_SESSION_ID_SIZE];
+    unsigned char sessCacheHeld;      /* Server: this session holds a reference
+                                         to the session table entry that
+                                         sessionId indexes (it registered or
+                                         resumed it).  sessionId alone proves
+                                         nothing: it can be a value the client
+                                         chose (ticket resumption, TLS 1.3
+                                         legacy_session_id) */
     sslSessionId_t *sid;
     char *expectedName;               /* Clients: The expected cert subject name
                                               passed to NewClient Session
